@@ -21,7 +21,7 @@ META = {
     'level_text': 'Theorems for every chunking in which the written text reaches the file descriptor, every crash point, every I/O fault '
                   'with any partial write (and any further, possibly failing, writes of the file object when it is closed on the way out: '
                   'disk full), every history of set/save/writeInit/load/factory-reset actions: crash_atomic, fault_atomic (target = complete old or '
-                  'complete new snapshot, tmp removed), save_outcome, failed_save_retried, believed_on_disk and believed_on_disk_world '
+                  'complete new snapshot, tmp removed - unless the remove of the clean-up fails as well: double_fault_target_complete), save_outcome, failed_save_retried, believed_on_disk and believed_on_disk_world '
                   '(persistentData always equals what a restart would read - for the save machine and for the whole module machine), '
                   'saved_when_done / save_leaves_current_file, auto_save_stays_registered (the callback that saves on every update of an '
                   '`auto` parameter stays registered whatever fails) and failed_auto_save_retried (after any history, failed automatic saves '
@@ -38,8 +38,8 @@ META = {
     'level_note': 'Durability is modelled at the granularity of the operations that reach the operating system (open, each write of the '
                   'buffered writer on the descriptor, close, rename, remove), for the default buffering and for small buffers; rename is atomic; '
                   'the code issues no fsync, and page-cache write-back / power-loss reordering of data and metadata is NOT modelled.  Faults: one '
-                  'failing operation per save, or a failing write followed by failing writes (disk full); a failing remove in the clean-up after '
-                  'another fault is not injected.  Saves are single-threaded in the model (two threads saving the same module concurrently '
+                  'failing operation per save, or a failing write followed by failing writes (disk full), each optionally with a failing remove in '
+                  'the clean-up; other combinations of two failing operations are not injected.  Saves are single-threaded in the model (two threads saving the same module concurrently '
                   'share one tmp file; not covered).  json, the datatypes, Python == and the chunking done by Python\'s io layers are oracles of the '
                   'model (tables recorded from the real functions).  The reload clauses (ReloadRestores, ReloadFromThisRun) extend the '
                   'statement\'s loading / precedence clauses to loadParameters(); a parameter without usable stored entry is bound only by '
@@ -57,7 +57,8 @@ META = {
         'driver glue: Python == on decoded JSON is `pyEq` (True == 1, 1.0 == 1, exact decimal comparison)',
         'Module.__init__ (values, given flags, configured writes) is an input of the model (C10); the persistent / auto flags given to the '
         'model come from the declaration (class definition and configuration), not from the module',
-        'announceUpdate is modelled for valid values whose update is not omitted (the harness clock advances 10 s per reading)',
+        'announceUpdate is modelled for updates that are not omitted (the harness clock advances 10 s per reading): valid values, and '
+        'updates without valid value (read error, refused value), which save nothing',
         'an OSError while *reading* the file and a failing pathlib mkdir are outside the statement and not injected',
     ],
     'modelled_not_verified': ['json', 'frappy.datatypes import_value/export_value/validate', 'Module.__init__/_handle_writes',
